@@ -120,6 +120,7 @@ func runC18(c *kit.Ctx) {
 
 	// ---- R3 ---------------------------------------------------------------
 	c.StartRule("R3", "exactly one decrement per answered call id", 2)
+	counterStepIsUnconditional(c)
 	downs := kit.Calls(recv, downName)
 	unregs := kit.Calls(recv, kit.M("region", "*client", "unregisterRPC"))
 	if len(downs) != 1 || len(unregs) != 1 {
@@ -222,6 +223,7 @@ func runC18(c *kit.Ctx) {
 	}
 	defer func() {
 		c.StartRule("R6", "a read error, including the read timeout, is a connection failure", 5)
+		readerEndsOnlyWhenTheConnectionFailed(c)
 		readerErrorsAreFatal(c, recv)
 		loop := c.Anchor("region", "client", "receiveRPCs")
 		if loop != nil {
